@@ -1,11 +1,11 @@
-"""C20 The s-expression reader inverts printing and fails cleanly -- partly not applicable.
+"""C20 The s-expression reader inverts printing and fails cleanly -- structural clauses.
 
-Decided structural clauses: a INDEX-BOUNDS, b NULL (clang static analyzer channel
-with positive fixture), c DIGIT-TABLE, d OWNERSHIP.
+Decided: a INDEX-BOUNDS, b NULL (clang static analyzer channel with positive fixture),
+c DIGIT-TABLE, d OWNERSHIP, e TOKEN-TABLE, f RESULT-SUMMARIES (least fixpoint over the
+recursive reader: what ends a list, what becomes an element, what reaches the caller),
+g WINDOW (the (pointer, length) input never reaches a NUL-seeking function).
 NOT decided (not applicable to this technique): parse(print(t)) == t over all
-trees; termination; the grammar-level ambiguity by which a nested '()' ends the
-enclosing list (recorded in DESIGN.md, not expressible as a necessary structural
-rule that survives a legitimate rewrite)."""
+trees as an equality of values; termination."""
 import os, subprocess
 from .. import cast, sym, lin, front
 from ..sym import C, fmt, linearize as L
@@ -524,14 +524,321 @@ def rule_e(ck, u):
     ck.verdict(bad is None, 'C20.e', 'parse_symbol:window', cast.where(u.fn('parse_symbol')), 'symbol text = s[*i .. scan end)' if bad is None else bad)
 
 
+class _Shape(Exception):
+    pass
+
+
+def rule_f(ck, u):
+    """C20.f  result-summary analysis of the mutually recursive reader.
+
+    Abstract value of a parse result: (origin, status, node kind) where origin says what the call
+    consumed (a token class, or 'list' = a complete parenthesised list) and node kind is one of
+    null / atom / empty / pair.  Summaries of sx_parse_token are read off its paths; those of
+    sx_parse_ and sx_parse_list are the least fixpoint of their path equations (every branch
+    condition on .status, .node and .node->type is evaluated on the abstract values).  The domain is
+    finite, so this is exact for these three fields and covers every nesting depth."""
+    E = u.enums
+    SUCCESS, FOUND = E['SXS_SUCCESS'], E['SXS_FOUND_LIST']
+    T_EMPTY, T_PAIR = E['SXT_EMPTY_LIST'], E['SXT_PAIR']
+    CLOSE = E['LOOKING_AT_PAREN_CLOSE']
+    cls_name = {E['LOOKING_AT_INT_DEC']: 'int', E['LOOKING_AT_INT_HEX']: 'hex', E['LOOKING_AT_SYMBOL']: 'sym',
+                E['LOOKING_AT_PAREN_OPEN']: 'open', CLOSE: 'close', E['LOOKING_AT_UNKNOWN']: 'unknown'}
+    eng = sym.Engine(u, sizeof={}, inline={'result_is_error', 'result_is_empty_listp', 'sx_is_null'})
+    where_list = cast.where(u.fn('sx_parse_list'))
+
+    def node_kind(t, p):
+        t = strip(t)
+        if t == C(0):
+            return 'null'
+        if t[0] == 'call' and t[1] == 'sx_make_empty_list':
+            return 'empty'
+        if t[0] == 'call' and t[1] in ('sx_cons', 'make_pair'):
+            return 'pair'
+        if t[0] == 'call' and t[1] in ('parse_integer', 'parse_hinteger', 'parse_symbol'):
+            for c in p.cond_terms():
+                if c[0] == 'cmp' and strip(c[2]) == t and c[3] == C(0):
+                    return 'null' if c[1] == '==' else 'atom'
+            return 'atom?'
+        raise _Shape('node value %s' % fmt(t))
+
+    def fields(r):
+        """(base call term or None, {field: term}) of a returned parse result"""
+        if r is None:
+            raise _Shape('no result')
+        if r[0] == 'struct':
+            return (r[1] if r[1][0] == 'call' else None), dict(r[2])
+        if r[0] == 'call':
+            return r, {}
+        raise _Shape('result %s' % fmt(r))
+
+    # ---- tokenizer summaries -------------------------------------------------------------------
+    TOK = set()
+    for p in eng.paths('sx_parse_token'):
+        la = p.calls('looking_at')
+        origin = 'end'
+        if la:
+            origin = None
+            nes = set()
+            for c in p.cond_terms():
+                if c[0] == 'cmp' and strip(c[2]) == la[0].result and sym.is_c(c[3]):
+                    if c[1] == '==':
+                        origin = cls_name.get(c[3][1])
+                    else:
+                        nes.add(c[3][1])
+            if origin is None:
+                origin = 'unknown' if nes >= set(cls_name) else None
+            if origin is None:
+                raise _Shape('token path without classification')
+        base, f = fields(p.ret)
+        if base is not None or not {'status', 'node'} <= set(f) or not sym.is_c(f['status']):
+            raise _Shape('token result %s' % fmt(p.ret))
+        TOK.add((origin, f['status'][1], node_kind(f['node'], p)))
+    ck.analysed['paths'] += 1
+
+    def sat(conds, X, sm):
+        """does abstract value sm of call term X satisfy the path conditions that mention X?"""
+        origin, st, nk = sm
+        for c in conds:
+            if not sym.contains(c, X):
+                continue
+            if c[0] != 'cmp' or c[1] not in ('==', '!=') or not sym.is_c(c[3]):
+                raise _Shape('condition %s' % fmt(c))
+            a = strip(c[2])
+            if a == ('fv', X, 'status'):
+                v = st
+            elif a == ('fv', X, 'node'):
+                if c[3][1] != 0:
+                    raise _Shape('condition %s' % fmt(c))
+                v = 0 if nk == 'null' else 1
+                if (c[1] == '==') != (v == 0):
+                    return False
+                continue
+            elif a[0] == 'f' and a[2] == 'type' and strip(a[1]) == ('fv', X, 'node'):
+                if nk == 'null':
+                    continue                    # dereference of NULL: C20.b's business, not decided here
+                v = {'empty': T_EMPTY, 'pair': T_PAIR}.get(nk, -1)
+                if v == -1 and c[3][1] not in (T_EMPTY, T_PAIR):
+                    raise _Shape('condition %s on an atom' % fmt(c))
+            else:
+                raise _Shape('condition %s' % fmt(c))
+            if (c[1] == '==') != (v == c[3][1]):
+                return False
+        return True
+
+    PL = {'sx_parse_': eng.paths('sx_parse_'), 'sx_parse_list': eng.paths('sx_parse_list'), 'sx_parse': eng.paths('sx_parse')}
+    ck.analysed['paths'] += sum(len(v) for v in PL.values())
+    P, LIST = set(), set()          # summaries of sx_parse_ ; of sx_parse_list: (status, node kind, how, where)
+    elements = set()                # origins of successful values that become list elements
+
+    def results_of(t):
+        if t[1] == 'sx_parse_token':
+            return TOK
+        if t[1] == 'sx_parse_':
+            return P
+        if t[1] == 'sx_parse_list':
+            return set(('list' if st_ == SUCCESS else 'error', st_, nk) for st_, nk, how, w in LIST)
+        raise _Shape('result of %s' % t[1])
+
+    def apply(sm, f, p):
+        origin, st, nk = sm
+        if 'status' in f:
+            if not sym.is_c(f['status']):
+                raise _Shape('status %s' % fmt(f['status']))
+            st = f['status'][1]
+        if 'node' in f:
+            v = strip(f['node'])
+            nk = 'null' if (v[0] == 'h' and 'sx_destroy' in fmt(v)) else node_kind(v, p)
+        return (origin, st, nk)
+
+    for _ in range(12):
+        P0, L0 = set(P), set(LIST)
+        for p in PL['sx_parse_']:
+            base, f = fields(p.ret)
+            if base is None:
+                raise _Shape('sx_parse_ builds its own result')
+            for sm in results_of(base):
+                if all(sat(p.cond_terms(), x, sm) if x == base else True for x in [base]):
+                    # conditions on the token result when the list result is what is returned
+                    others = [e.result for e in p.calls('sx_parse_token') if e.result != base]
+                    if others and not any(sat(p.cond_terms(), others[0], t) for t in TOK):
+                        continue
+                    P.add(apply(sm, f, p))
+        for p in PL['sx_parse_list']:
+            car = p.calls('sx_parse_')
+            cdr = p.calls('sx_parse_list')
+            cons = p.calls('sx_cons')
+            w = cast.where(p.node) if p.node else where_list
+            base, f = fields(p.ret)
+            if not car:
+                if base is not None:
+                    raise _Shape('list path returns %s' % fmt(p.ret))
+                origin = 'end'
+                for c in p.cond_terms():
+                    if c[0] == 'cmp' and c[1] == '==' and c[3] == C(CLOSE) and strip(c[2])[0] == 'call' and strip(c[2])[1] == 'looking_at':
+                        origin = 'close'
+                    if c[0] == 'cmp' and c[1] == '==' and c[3] == C(ord(')')) and strip(c[2])[0] == 'i' and strip(strip(c[2])[1]) == S:
+                        origin = 'close'
+                st = f['status'][1] if sym.is_c(f.get('status', C(SUCCESS))) else None
+                nk = node_kind(f.get('node', C(0)), p)
+                LIST.add((st, nk, 'terminator:%s' % origin if st == SUCCESS else 'error', w))
+                continue
+            X = car[0].result
+            for sm in set(P):
+                if not sat(p.cond_terms(), X, sm):
+                    continue
+                if cons and cdr:
+                    if sm[1] == SUCCESS:
+                        elements.add(sm[0] + ('/' + sm[2] if sm[0] == 'list' else ''))
+                    Y = cdr[0].result
+                    for st2, nk2, how2, w2 in set(LIST):
+                        LIST.add((st2, 'pair', 'cons', w))
+                elif base == X:
+                    sm2 = apply(sm, f, p)
+                    LIST.add((sm2[1], sm2[2], 'terminator:%s' % sm[0] if sm2[1] == SUCCESS else 'error', w))
+                else:
+                    raise _Shape('list path %s' % p.describe(3))
+        if P == P0 and LIST == L0:
+            break
+    else:
+        raise _Shape('no fixpoint')
+
+    # ---- F1: only a closing parenthesis ends a list -----------------------------------------------------
+    bad = [(how, w) for st, nk, how, w in LIST if how.startswith('terminator:') and how != 'terminator:close']
+    ck.verdict(not bad, 'C20.f', 'sx_parse_list:end-of-list', bad[0][1] if bad else where_list,
+               'the only successful return of sx_parse_list that ends a list is taken on a ")" token' if not bad else
+               'the end-of-list return is also taken for a value of origin "%s": a complete nested "()" (value: SUCCESS, empty list) is indistinguishable '
+               'from the ")" token and ends the enclosing list, e.g. "(a () b)" reads as (a)' % bad[0][0].split(':')[1])
+    # ---- F2: every kind of expression is accepted as a list element ---------------------------------------
+    need = {'int', 'hex', 'sym', 'list/empty', 'list/pair'}
+    miss = sorted(need - elements)
+    ck.verdict(not miss, 'C20.f', 'sx_parse_list:elements', where_list,
+               'integers, hex integers, symbols, empty and non-empty lists all reach sx_cons as elements' if not miss else
+               'no path links a successful %s as a list element' % ', '.join(miss))
+    # ---- F3: a lone ")" is not an expression --------------------------------------------------------------
+    TOP = set()
+    for p in PL['sx_parse']:
+        base, f = fields(p.ret)
+        for sm in P:
+            if sat(p.cond_terms(), base, sm):
+                TOP.add(apply(sm, f, p))
+    stray = [sm for sm in TOP if sm[0] == 'close' and sm[1] == SUCCESS]
+    ck.verdict(not stray, 'C20.f', 'sx_parse:stray-close', cast.where(u.fn('sx_parse')),
+               'a ")" that closes nothing is reported as an error' if not stray else
+               'input beginning with ")" is returned as SUCCESS with an empty-list tree (the tokenizer\'s end-of-list value escapes to the top level)')
+    leak = [sm for sm in TOP if sm[1] not in (SUCCESS, FOUND) and sm[2] != 'null']
+    ck.verdict(not leak, 'C20.f', 'sx_parse:error-without-tree', cast.where(u.fn('sx_parse')),
+               'every error summary of sx_parse carries no tree' if not leak else 'error status %d returned together with a %s node' % (leak[0][1], leak[0][2]))
+    ck.floor('C20.f', 'result summaries', len(TOK) + len(P) + len(LIST), 12)
+
+
+# libc functions by how far they read through a pointer argument
+NUL_SEEKING = {'strlen': (0,), 'strcpy': (1,), 'strlcpy': (1,), 'strlcat': (1,), 'strcat': (1,), 'strdup': (0,), 'strcmp': (0, 1),
+               'strchr': (0,), 'strrchr': (0,), 'strstr': (0, 1), 'strtoul': (0,), 'strtoull': (0,), 'strtol': (0,), 'strtoll': (0,),
+               'atoi': (0,), 'atol': (0,), 'sscanf': (0,), 'strspn': (0,), 'strcspn': (0,), 'strpbrk': (0,), 'puts': (0,), 'printf': ()}
+LEN_BOUNDED = {'memcpy': (1, 2), 'memmove': (1, 2), 'memcmp': (0, 2), 'memchr': (0, 2), 'strncmp': (0, 2), 'strnlen': (0, 1),
+               'strncpy': (1, 2)}      # callee -> (pointer argument, count argument): reads at most count octets
+
+
+def rule_g(ck, u):
+    """C20.g  the input window (s, length) never escapes to code that reads up to a NUL.
+
+    Every function of the unit that receives the input as (pointer, length) is walked; wherever a pointer
+    into the window is passed on, the callee must either be a unit function taking its own (pointer,
+    length) pair that lies inside the caller's window, or a libc function that reads a stated count that
+    lies inside it.  Functions that read until a NUL are a violation: a length-delimited input has none."""
+    eng = sym.Engine(u, sizeof={}, inline=set())
+    # window functions: a `const char *` parameter immediately followed by a size parameter
+    WIN = {}
+    for name, f in sorted(u.functions.items()):
+        fl, _ = cast.node_loc(f)
+        if not fl or not fl.endswith('sx.c') or u.body(name) is None:
+            continue
+        ps = u.params(name)
+        for k in range(len(ps) - 1):
+            q0 = cast.qual_type(ps[k]).replace('const ', '').strip()
+            q1 = cast.qual_type(ps[k + 1]).replace('const ', '').strip()
+            if q0 in ('char *',) and q1 in ('size_t', 'unsigned long'):
+                WIN[name] = (k, k + 1, ps[k]['name'], ps[k + 1]['name'])
+                break
+    ck.floor('C20.g', 'functions receiving the input window', len(WIN), 10)
+    nsite = 0
+    for name, (pi, li, pn, ln) in sorted(WIN.items()):
+        ck.function(name)
+        Sx, Nx = ('v', pn), ('v', ln)
+        try:
+            ps = eng.paths(name)
+        except (sym.Unsupported, sym.PathLimit) as e:
+            ck.broken('C20.g', name, cast.where(u.fn(name)), 'path enumeration: %s' % e)
+            continue
+        ck.analysed['paths'] += len(ps)
+        # loop positions: h <= length is inductive when the loop only steps by one under `h < length`
+        inv = []
+        for p in ps:
+            if p.end != 'loopback' or not p.loops:
+                continue
+            lmap = p.loops[-1][1]
+            facts = eng.path_facts(p)
+            for k_, (h, pre) in lmap.items():
+                nxt = p.mem.get(k_, h)
+                if eng.entails(facts + [lin.le(L(h), L(Nx))], L(nxt) - L(Nx)):
+                    inv.append((h, k_))
+        bad_h = set()
+        for p in ps:                       # an invariant candidate must survive every loopback path of its loop
+            if p.end != 'loopback' or not p.loops:
+                continue
+            lmap = p.loops[-1][1]
+            facts = eng.path_facts(p)
+            for k_, (h, pre) in lmap.items():
+                nxt = p.mem.get(k_, h)
+                if not eng.entails(facts + [lin.le(L(h), L(Nx))], L(nxt) - L(Nx)):
+                    bad_h.add(h)
+        bad = None
+        for p in ps:
+            facts = eng.path_facts(p)
+            for node, lmap in p.loops:
+                for k_, (h, pre) in lmap.items():
+                    if h not in bad_h and (h, k_) in inv:
+                        facts = facts + [lin.le(L(h), L(Nx))]      # base: positions start inside the window (caller passes i <= n)
+            for e in p.effects:
+                if e.kind not in ('call', 'icall'):
+                    continue
+                for ai, a in enumerate(e.args):
+                    a0 = strip(a)
+                    if not (a0 == Sx or (a0[0] in ('+', '-') and strip(a0[1]) == Sx)):
+                        continue
+                    nsite += 1
+                    off = L(a0) - L(Sx)
+                    if e.name in NUL_SEEKING:
+                        bad = ('%s at %s reads through %s until it meets a NUL; the input is only known to hold %s octets '
+                               '(a symbol at the end of a length-delimited input is read beyond its last octet)'
+                               % (e.name, e.where(), fmt(a), ln))
+                    elif e.name in LEN_BOUNDED:
+                        pa, ca = LEN_BOUNDED[e.name]
+                        if ai == pa and not eng.entails(facts, off + L(e.args[ca]) - L(Nx)):
+                            bad = '%s at %s reads %s octets from %s, not provably inside the %s octets of the input' % (e.name, e.where(), fmt(e.args[ca]), fmt(a), ln)
+                    elif e.name in WIN:
+                        cpi, cli = WIN[e.name][0], WIN[e.name][1]
+                        if ai != cpi:
+                            bad = '%s at %s receives the input as argument %d' % (e.name, e.where(), ai)
+                        elif not eng.entails(facts, off + L(e.args[cli]) - L(Nx)):
+                            bad = ('%s at %s is given the window (%s, %s), not provably inside the caller\'s %s octets'
+                                   % (e.name, e.where(), fmt(a), fmt(e.args[cli]), ln))
+                    else:
+                        ck.broken('C20.g', '%s:%s' % (name, e.name), e.where(), 'input pointer passed to %s, whose reading behaviour this rule does not know' % e.name)
+        ck.verdict(bad is None, 'C20.g', name, cast.where(u.fn(name)),
+                   'pointers into the input are passed on only with a length inside the window' if bad is None else bad)
+    ck.floor('C20.g', 'sites passing the input on', nsite, 10)
+
+
 def run(ck):
     ck.rule('C20.e', 'token table: classification decision list, one parser arm per class with the right failure status, (offset, digit predicate, base) per integer syntax, positional value accumulation, symbol text window')
     ck.rule('C20.a', 'index bounds: every read s[e] in skip_ws, looking_at, parse_symbol, parse_integer_ is entailed below n by the dominating guards (call-site precondition i < n checked in sx_parse_token; backward digit loop in the exception table)')
     ck.rule('C20.b', 'clang static analyzer core.NullDereference reports nothing on sx.c (armed channel; must fire on the kept positive example)')
     ck.rule('C20.c', 'digit table: every character the digit predicate of a parse_integer_ call accepts has a digit2int value below the base')
     ck.rule('C20.d', 'ownership: result_is_error = not in {SUCCESS, FOUND_LIST}; sx_parse destroys the partial tree on every error; sx_parse_list links/returns every node it obtained; sx_destroy frees everything')
+    ck.rule('C20.g', 'the input window (pointer, length) is passed on only to unit functions with a (pointer, length) inside it or to libc functions reading a stated count inside it; never to a function that reads until a NUL')
+    ck.rule('C20.f', 'result summaries (origin, status, node kind) of sx_parse_token / sx_parse_ / sx_parse_list as a least fixpoint: only a ")" token ends a list, every expression kind is linked as an element, a stray ")" and every error carry no tree')
     ck.not_decided += ['parse(print(t)) == t over all trees (NOT APPLICABLE: recursive-parser round trip)', 'termination of the reader',
-                       'the nested "()" grammar ambiguity (D24 in DESIGN.md): a nested empty list ends the enclosing list',
                        'precondition i <= n of the public entry points']
     ck.assumptions += ['callers pass a start position i <= n']
     u = cast.load(UNIT)
@@ -549,4 +856,12 @@ def run(ck):
         rule_e(ck, u)
     except (sym.Unsupported, sym.PathLimit) as e:
         ck.broken('C20.a', 'engine', '', str(e))
+    try:
+        rule_g(ck, u)
+    except (sym.Unsupported, sym.PathLimit) as e:
+        ck.broken('C20.g', 'engine', UNIT, str(e))
+    try:
+        rule_f(ck, u)
+    except (sym.Unsupported, sym.PathLimit, _Shape) as e:
+        ck.broken('C20.f', 'summaries', UNIT, 'result-summary analysis: %s' % e)
     rule_b(ck, u)
